@@ -145,7 +145,9 @@ Example C08_nonvacuous :
   qr_regular sq_example 2 (List.seq 0 (Nat.min (2 - 1) 1)) m.
 Proof.
   split; first by split; [|repeat constructor].
-  split; first by do 2 eexists; rewrite /qr /=; reflexivity.
+  split.
+  { case E: (qr (rops sq_example) [:: [:: 7%:R]; [:: 24%:R]]) => [[q r]|]; first by exists q, r.
+    move/qr_absent_iff: E. rewrite /mrows /mcols /= => H. by inversion H as [|? H']; inversion H'. }
   rewrite /= /householder_u /euclidean_length /sumsq /= /sq_example.
   have E1 : 7%:R * 7%:R + 24%:R * 24%:R = 625%:R :> rat by rewrite -!natrM -natrD.
   rewrite !add0r.
